@@ -101,6 +101,15 @@ fn hit(args: [(u32, u32); 3], borrowed: u8, kept: u32) {
     }
 }
 
+/// The value the last logged call returned was created by it (the `&a + &b` forms).
+fn set_last_kept(id: u32) {
+    ARITH.with(|a| {
+        if let Some(c) = a.borrow_mut().log.last_mut() {
+            c.kept = id;
+        }
+    });
+}
+
 const NO: (u32, u32) = (NONE, 0);
 
 macro_rules! leaf_arith {
@@ -124,6 +133,23 @@ macro_rules! leaf_arith {
             fn add(self, rhs: &'a $T) -> $T {
                 hit([(self.id, self.val), (rhs.id, rhs.val), NO], 0b10, self.id);
                 self
+            }
+        }
+        impl<'a> Add<$T> for &'a $T {
+            type Output = $T;
+            fn add(self, rhs: $T) -> $T {
+                hit([(self.id, self.val), (rhs.id, rhs.val), NO], 0b01, rhs.id);
+                rhs
+            }
+        }
+        impl<'a, 'b> Add<&'b $T> for &'a $T {
+            type Output = $T;
+            fn add(self, rhs: &'b $T) -> $T {
+                hit([(self.id, self.val), (rhs.id, rhs.val), NO], 0b11, NONE);
+                // a new value: created by this call, owned by whoever receives it
+                let out = <$T>::made_by_operator(self.val);
+                set_last_kept(out.id);
+                out
             }
         }
         impl Mul<$T> for $T {
